@@ -25,6 +25,8 @@ WORKBOOK = [
     ('Ragged', [[1, 2, 3], [4], [], [7, 8]]),
     # a cell far below the rest of its sheet: every row in between exists and is blank
     ('Gap', [['top', 1]] + [[None, None] for _ in range(1200)] + [['eval(3)', True]]),
+    # texts that look like values of another type are texts: what the cell stores is what a formula reads
+    ('Texts', [['12.5', '0.1', '-3.25'], ['1e5', '007', 'nan'], ['TRUE', '2024-01-31', ' 5 '], ['inf', '42', '=']]),
 ]
 EXPECTED_DATA = [
     [[1, 'x', None], [0, False, ''], [None, None, 2.5]],
@@ -33,10 +35,12 @@ EXPECTED_DATA = [
     [[5, 6], [None, None], [0, False]],
     [[1, 2, 3], [4], [], [7, 8]],
     [['top', 1]] + [[None, None] for _ in range(1200)] + [['eval(3)', True]],
+    [['12.5', '0.1', '-3.25'], ['1e5', '007', 'nan'], ['TRUE', '2024-01-31', ' 5 '], ['inf', '42', '=']],
 ]
-EXPECTED_TITLES = ['Data', 'S 2', 'Empty', 'Sparse', 'Ragged', 'Gap']
+EXPECTED_TITLES = ['Data', 'S 2', 'Empty', 'Sparse', 'Ragged', 'Gap', 'Texts']
 EXPECTED_SIZES = [{'last_column': 3, 'last_row': 3}, {'last_column': 2, 'last_row': 5}, {'last_column': 0, 'last_row': 0},
-                  {'last_column': 2, 'last_row': 3}, {'last_column': 3, 'last_row': 4}, {'last_column': 2, 'last_row': 1202}]
+                  {'last_column': 2, 'last_row': 3}, {'last_column': 3, 'last_row': 4}, {'last_column': 2, 'last_row': 1202},
+                  {'last_column': 3, 'last_row': 4}]
 EXPECTED_SUSPICIOUS = {"'S 2'B1": ['eval(1)'], "'S 2'A3": ['system("x")'], "'S 2'B3": ['eval(1)'], "'S 2'A4": ['exec(2)'], "'S 2'B5": ['exec(9)'],
                        "'Gap'A1202": ['eval(3)']}
 
